@@ -184,4 +184,81 @@ theorem RwB.reorder (isLit : Term → Bool) (tle : TP n → TP n → Bool) (q : 
   | graph t p ih => exact .graph t ih
   | values rows => exact .refl _
 
+
+/-! ### the evaluator reaches its stores through `triples` only -/
+
+/-- two stores that answer every pattern with the same bag -/
+def StoreEq (g g' : Store) : Prop := ∀ pat, (g pat).Perm (g' pat)
+
+/-- the same named graphs, each answering alike -/
+inductive NamedEq : List (Term × Store) → List (Term × Store) → Prop
+  | nil : NamedEq [] []
+  | cons {k : Term} {s s' : Store} {l l' : List (Term × Store)} :
+      StoreEq s s' → NamedEq l l' → NamedEq ((k, s) :: l) ((k, s') :: l')
+
+def DSet.Equiv (ds ds' : DSet) : Prop := StoreEq ds.dflt ds'.dflt ∧ NamedEq ds.named ds'.named
+
+theorem namedEq_flatMap_perm {γ : Type} {f f' : Term × Store → List γ}
+    (h : ∀ k s s', StoreEq s s' → (f (k, s)).Perm (f' (k, s'))) : ∀ {l l' : List (Term × Store)}, NamedEq l l' →
+      (l.flatMap f).Perm (l'.flatMap f')
+  | _, _, .nil => List.Perm.refl _
+  | _, _, .cons hs hr => by
+    rw [List.flatMap_cons, List.flatMap_cons]
+    exact (h _ _ _ hs).append (namedEq_flatMap_perm h hr)
+
+theorem lookupGraph_namedEq (nm : Term) : ∀ {l l' : List (Term × Store)}, NamedEq l l' →
+      (lookupGraph l nm = none ∧ lookupGraph l' nm = none) ∨
+      ∃ gs gs', lookupGraph l nm = some gs ∧ lookupGraph l' nm = some gs' ∧ StoreEq gs gs'
+  | _, _, .nil => Or.inl ⟨rfl, rfl⟩
+  | _, _, @NamedEq.cons k s s' _ _ hs hr => by
+    simp only [lookupGraph]
+    by_cases e : k = nm
+    · simp only [e, if_true]
+      exact Or.inr ⟨s, s', rfl, rfl, hs⟩
+    · simp only [e, if_false]
+      exact lookupGraph_namedEq nm hr
+
+theorem evalTD_store_congr {ds ds' : DSet} (hds : ds.Equiv ds') (init : Row n) (q : P n) :
+    ∀ (g g' : Store) (μ : Row n), StoreEq g g' → (evalTD ds init q g μ).Perm (evalTD ds' init q g' μ) := by
+  induction q with
+  | bgp ts => exact fun g g' μ hg => evalBGP_store_congr hg _ μ
+  | join a b iha ihb =>
+    intro g g' μ hg
+    simp only [evalTD]
+    split
+    · exact ((iha g g' μ hg).flatMap_right _).trans
+        (perm_flatMap_congr fun x _ => (ihb g g' (thaw init x) hg).map _)
+    · exact joinBag_perm (iha g g' μ hg) (ihb g g' μ hg)
+  | leftJoin a b e iha ihb =>
+    intro g g' μ hg
+    rw [evalTD_leftJoin, evalTD_leftJoin]
+    exact ((iha g g' μ hg).flatMap_right _).trans
+      (perm_flatMap_congr fun x _ => ljRow_perm init μ _ _ e (fun ν => ihb g g' ν hg) x)
+  | union a b iha ihb => exact fun g g' μ hg => (iha g g' μ hg).append (ihb g g' μ hg)
+  | minus a b iha ihb =>
+    intro g g' μ hg
+    simp only [evalTD]
+    have hp : (fun x : Row n => ((evalTD ds init b g init).map (remember b.vars)).all fun y =>
+          !(compat (remember a.vars x) y) || disjointDom (remember a.vars x) y) =
+        (fun x : Row n => ((evalTD ds' init b g' init).map (remember b.vars)).all fun y =>
+          !(compat (remember a.vars x) y) || disjointDom (remember a.vars x) y) := by
+      funext x
+      exact ((ihb g g' init hg).map _).all_eq
+    rw [← hp]
+    exact (iha g g' μ hg).filter _
+  | filter e p ih => exact fun g g' μ hg => by simp only [evalTD]; exact (ih g g' μ hg).filter _
+  | extend p v e ih => exact fun g g' μ hg => by simp only [evalTD]; exact (ih g g' μ hg).filterMap _
+  | graph t p ih =>
+    intro g g' μ hg
+    cases hl : μ.look t with
+    | none =>
+      simp only [evalTD, hl]
+      exact namedEq_flatMap_perm (fun k s s' hs => (ih s s' μ hs).filterMap _) hds.2
+    | some nm =>
+      simp only [evalTD, hl]
+      rcases lookupGraph_namedEq nm hds.2 with ⟨h1, h2⟩ | ⟨gs, gs', h1, h2, h3⟩
+      · rw [h1, h2]
+      · rw [h1, h2]; exact ih gs gs' μ h3
+  | values rows => exact fun _ _ _ _ => List.Perm.refl _
+
 end RV.C15
